@@ -14,6 +14,7 @@ from .c02 import after_list_removal  # noqa: F401
 from .c07 import blocks_of
 
 ID = "C06"
+GUARD_KERNELS = True
 NAMES = ["collapse", "bandpass", "read_chan", "dedisperse", "compute_stats", "compute_stats_basic"]
 SHRINK_LISTS = ("ops", "faults")
 SHRINK_MIN = {"nchans": 1, "nbits": 1, "gulp": 1}
@@ -206,6 +207,8 @@ def execute(sc, ctx) -> None:
                 got = call(name, reader, params, gulp, start, nsamps)
             except SimLivelock as e:
                 raise Violation(f"C06/{name}/livelock/{eof}", str(e), info) from None
+            except Violation:
+                raise
             except Exception as e:  # noqa: BLE001
                 raised = e
             fault = sum(ctx.faults.values()) > fired0
